@@ -35,7 +35,7 @@ def _corpus_groups():
     if _groups is None:
         ix = model.corpus_index()
         g = {"all": [], "shimmed": [], "plain": [], "nd3": [], "d0": [], "d1": [], "d1num": [],
-             "d1plain": [], "d2": [], "ca0": [], "multinum": [], "bysig": {}}
+             "d1plain": [], "d2": [], "ca0": [], "multinum": [], "catdate": [], "numeric": [], "bysig": {}}
         for name in sorted(ix):
             m = ix[name]
             g["all"].append(name)
@@ -44,6 +44,10 @@ def _corpus_groups():
                 g["shimmed"].append(name)
             else:
                 g["plain"].append(name)
+            if "BINNED_NUMERIC" in types:
+                g["numeric"].append(name)
+            if "CAT_DATE" in types[-2:]:
+                g["catdate"].append(name)
             if m["ndim"] >= 3:
                 g["nd3"].append(name)
             if m["ndim"] == 0:
@@ -73,6 +77,10 @@ def _pick_corpus(rnd, knobs, group=None):
         pool = g[group]
     elif rnd.random() < 0.12:
         pool = g["multinum"]  # several numeric measures: whichever comes "first" matters
+    elif rnd.random() < 0.08:
+        pool = g["catdate"]  # the only dimensions that can actually be smoothed
+    elif rnd.random() < 0.05:
+        pool = g["numeric"]  # binned-numeric dimensions: labels formatted from numbers
     elif rnd.random() < knobs["shim_bias"]:
         pool = g["shimmed"]
     else:
@@ -170,6 +178,11 @@ def generate(run_seed, tier_cfg):
         "call_rate": rnd.choice([0.03, 0.08, 0.15]),
         "expand_rate": rnd.choice([0.1, 0.25]),
     }
+    # sweep runs read (nearly) every property of one or two partitions in a random
+    # order: every ordered pair of reads on one object is covered in one of its two orders
+    knobs["mode"] = "sweep" if rnd.random() < tier_cfg.get("sweep_share", 0.15) else "mixed"
+    if knobs["mode"] == "sweep":
+        knobs["max_steps"] = rnd.choice(tier_cfg.get("sweep_steps", [150, 220]))
     fault_free = rnd.random() < tier_cfg.get("fault_free_share", 0.25)
     all_faults = ["F1", "F2", "F3", "F4", "F5"]
     if fault_free:
@@ -215,6 +228,8 @@ def generate(run_seed, tier_cfg):
         args["r0"] = _response_arg(rnd, knobs, name)
         args["r1"] = dict(args["r0"])
         args["r1"]["perturb"] = list(args["r0"].get("perturb", [])) + [["refresh", rnd.randrange(100)]]
+        if rnd.random() < 0.5:
+            args["r1"]["perturb"].append(["floatify"])
         meta = _meta_for(args["r0"])
         args["t0"] = _transforms_arg(rnd, knobs, meta)
         specs["s0"] = _cube_spec(rnd, "r0", "t0", scal)
